@@ -50,7 +50,7 @@ def cases(tier):
                     rm = (a + d) // 2          # all three knots integer-typed
                 out.append(dict(start=s, end=e, detach=d, attach=a, kind='buck4_spline', rmin=rm))
     # as.buck4 shorthand against its documented long form
-    for A, rho, C in ((1388.773, 0.3623, 175.0), (1000.0, 0.3, 30.0), (500, 1, 60)):
+    for A, rho, C in ((1388.773, 0.3623, 175.0), (1000.0, 0.3, 30.0), (500, 1, 60), (1388.773, 0.3623, 0), (800.0, 0.29, 0.0), (0, 0.3, 30.0)):
         for rd, rm, ra in ((1.2, 2.1, 2.6), (1, 2, 3), (0.9, 1.5, 3.1), (1.5, 1.9, 2.2), (1.0, 1.3, 3.0)):
             out.append(dict(buck4=[A, rho, C, rd, rm, ra]))
     return out
